@@ -525,26 +525,21 @@ Proof.
   destruct n; [cbn in H; lia|]. cbn. f_equal. apply IH. cbn in H. lia.
 Qed.
 
-(* a LazyCall without extra entries: merging its batches = its eager value.  The extra dict {} is
-   split on its own, holds no array, and therefore still yields only MAX_ITER (mx) copies. *)
+(* a LazyCall without extra entries: merging its batches = its eager value, any number of batches *)
 Theorem lazy_eq_eager : forall fn mx b n x, commutes fn ->
-  0 < b -> 0 < n -> uniform n x -> has_leaf x = true -> nbatches n b <= mx ->
+  0 < b -> 0 < n -> uniform n x -> has_leaf x = true ->
   merge_all (lazy_batches fn mx b x empty_dict) = Some (lazy_eval fn x empty_dict).
 Proof.
-  intros fn mx b n x Hf Hb Hn Hu Hl Hmx. unfold lazy_batches, lazy_eval.
-  change (data_split mx b empty_dict) with (repeat empty_dict mx).
-  rewrite zipw_repeat.
-  2:{ rewrite map_length, (data_split_pieces mx b n x Hn Hu Hl). cbn [length]. rewrite map_length, seq_length.
-      pose proof (nbatches_pos n b Hn). lia. }
-  rewrite map_map.
+  intros fn mx b n x Hf Hb Hn Hu Hl. unfold lazy_batches, lazy_eval. cbn [forest_of empty_dict].
   assert (Hw : commutes (fun p => wrap (fn p))).
   { intros d0 others. rewrite <- (map_map fn wrap), wrap_commutes, Hf. reflexivity. }
   exact (batch_call_eq (fun p => wrap (fn p)) mx b n x Hw Hb Hn Hu Hl).
 Qed.
 
-(* ... and with more batches than MAX_ITER the iteration of such a LazyCall stops early (finding) *)
-Lemma lazy_max_iter_refuted : exists fn mx b x, commutes fn /\ uniform 3 x /\ has_leaf x = true /\
-  merge_all (lazy_batches fn mx b x empty_dict) <> Some (lazy_eval fn x empty_dict).
+(* F14 (old): the empty extra split on its own stopped the iteration after MAX_ITER batches *)
+Lemma old_lazy_max_iter : exists fn mx b x, commutes fn /\ uniform 3 x /\ has_leaf x = true /\
+  merge_all (lazy_batches_old fn mx b x empty_dict) <> Some (lazy_eval fn x empty_dict) /\
+  merge_all (lazy_batches fn mx b x empty_dict) = Some (lazy_eval fn x empty_dict).
 Proof.
   exists (fun d => d), 2, 1, (Node KDict (FCons 0%Z (Leaf [1%Z; 2%Z; 3%Z]) FNil)).
   split; [intros d0 others; rewrite map_id; reflexivity|].
